@@ -505,6 +505,66 @@ fn main() {
     }
   }
 
+  // ---- durations that only the serde path can express (negative, sub-second): the result must still be None or a
+  // canonical whole-second timestamp in range; for whole seconds it must equal signed integer arithmetic
+  let serde_durs: Vec<(i64, i32)> = {
+    let mut v = vec![(0, 0), (1, 0), (-1, 0), (0, 500_000_000), (1, 500_000_000), (0, 999_999_999), (-1, -500_000_000), (0, -1), (86_400, 0), (-86_400, 0), (0, 1), (-2, 0), (59, 750_000_000)];
+    for _ in 0..8 {
+      v.push((rng.range_i64(-1_000_000, 1_000_000), 0));
+      let secs = rng.range_i64(-100, 100);
+      let nanos = rng.range_i64(0, 999_999_999) as i32;
+      v.push((secs, if secs < 0 { -nanos } else { nanos }));
+    }
+    v
+  };
+  for t in ts_pool.iter().take(24) {
+    for (secs, nanos) in &serde_durs {
+      k += 1;
+      if !args.mine(k) {
+        continue;
+      }
+      let j = format!("[{},{}]", secs, nanos);
+      let Ok(Ok(d)) = catch(|| Duration::from_json(&j)) else {
+        cx.rep.inc("serde_duration_rejected");
+        continue;
+      };
+      let Ok(ts) = Timestamp::from_unix(*t) else { continue };
+      cx.rep.eval();
+      cx.rep.inc("serde_duration_cases");
+      for add in [true, false] {
+        let got = catch(|| if add { ts.checked_add(d) } else { ts.checked_sub(d) });
+        let name = format!("Duration::from_json({})", j);
+        match got {
+          Err(p) => cx.rep.violation(&format!("arith-panic@{}", p.file_only()), &format!("{} {} {} panicked: {}", t, if add { "+" } else { "-" }, name, p.msg), json!({"t":t,"dur":j,"add":add})),
+          Ok(None) => {
+            if *nanos == 0 {
+              let want = if add { t.checked_add(*secs) } else { t.checked_sub(*secs) }.filter(|r| (MIN..=MAX).contains(r));
+              if want.is_some() {
+                cx.rep.violation(if add { "checked_add-mismatch" } else { "checked_sub-mismatch" }, &format!("{} {} {} = None, integer arithmetic says {:?}", t, if add { "+" } else { "-" }, name, want), json!({"t":t,"dur":j,"add":add}));
+              }
+            }
+          }
+          Ok(Some(x)) => {
+            // every returned value must be a canonical whole-second timestamp in range (all accessor / round-trip checks)
+            let u = cx.check_accepted("arith", &format!("{}{}{}", t, if add { "+" } else { "-" }, name), x);
+            if *nanos == 0 {
+              let want = if add { t.checked_add(*secs) } else { t.checked_sub(*secs) }.filter(|r| (MIN..=MAX).contains(r));
+              if u != want {
+                cx.rep.violation(if add { "checked_add-mismatch" } else { "checked_sub-mismatch" }, &format!("{} {} {} = {:?}, integer arithmetic says {:?}", t, if add { "+" } else { "-" }, name, u, want), json!({"t":t,"dur":j,"add":add}));
+              }
+            } else if let Some(u) = u {
+              // fractional duration: the exact second is left to the library, but it cannot be further than one second off
+              let exact = (*t as i128) + if add { 1 } else { -1 } * ((*secs as i128) + if *nanos == 0 { 0 } else { 0 });
+              if ((u as i128) - exact).abs() > 1 {
+                cx.rep.violation("checked-arith-fractional-off", &format!("{} {} {} = {}, more than a second away from {}", t, if add { "+" } else { "-" }, name, u, exact), json!({"t":t,"dur":j,"add":add}));
+              }
+            }
+          }
+        }
+      }
+    }
+  }
+
   // ---- ordering
   for i in 0..ts_pool.len().min(60) {
     for j in 0..ts_pool.len().min(60) {
